@@ -10,8 +10,8 @@
   MODELLED, not proved: the differential run ties it.
 
   Mirrored as written:
-  * `if paramstyle in ('format', 'pyformat'): sql = sql.replace('%', '%%')` happens BEFORE the scan, over the whole
-    statement — so the expression texts are doubled as well (`pre`);
+  * for `format` / `pyformat` the literal text chunks appended to `result` go through `text(s) = s.replace('%', '%%')`
+    (`pre`); the statement itself is scanned unmodified, so expression texts are never doubled (since 252a0a9);
   * the loop with its three accumulators `result`, `args`, `kwargs`; the key `'p%d' % (len(kwargs) + 1)`; `':%d' % len(args)`;
   * `if args or kwargs:` … `else: adapted_sql = original_sql.replace('$$', '$')` (the ORIGINAL text: no doubling without parameters);
   * the module cache `adapted_sql_cache`: looked up with `(sql, paramstyle)`, stored with `(original_sql, paramstyle)`.
@@ -48,12 +48,17 @@ def Style.percent : Style → Bool
   | .format | .pyformat => true
   | _ => false
 
-/-- what the whole-statement `replace` does to a piece of the statement -/
+/-- `text(s)`: what happens to a literal chunk of the statement -/
 def pre (style : Style) (cs : List Char) : List Char := if style.percent then dbl cs else cs
+
+/-- the digit character of d < 10 -/
+def digit (d : Nat) : Char :=
+  match d with
+  | 0 => '0' | 1 => '1' | 2 => '2' | 3 => '3' | 4 => '4' | 5 => '5' | 6 => '6' | 7 => '7' | 8 => '8' | _ => '9'
 
 /-- decimal digits of a natural number (`'%d' % n`) -/
 def natDigits (n : Nat) : List Char :=
-  if n < 10 then [Char.ofNat (48 + n)] else natDigits (n / 10) ++ [Char.ofNat (48 + n % 10)]
+  if n < 10 then [digit n] else natDigits (n / 10) ++ [digit (n % 10)]
 termination_by n
 decreasing_by omega
 
@@ -71,12 +76,12 @@ structure St where
 def dictSet (d : List (Nat × List Char)) (k : Nat) (v : List Char) : List (Nat × List Char) :=
   if d.any (fun kv => kv.1 == k) then d.map (fun kv => if kv.1 == k then (k, v) else kv) else d ++ [(k, v)]
 
-/-- one iteration of the `while True` loop on the (already `%`-doubled) statement -/
+/-- one iteration of the `while True` loop -/
 def step (style : Style) (st : St) : Tok → St
   | .text t => { st with result := st.result ++ [pre style t] }
   | .dollar => { st with result := st.result ++ [['$']] }
   | .expr e _ =>
-    let expr := pre style e                        -- the scanner sees the doubled text; the `;` is cut off
+    let expr := e                                  -- the expression text as written; the closing `;` is cut off
     match style with
     | .qmark => { st with args := st.args ++ [expr], result := st.result ++ [['?']] }
     | .format => { st with args := st.args ++ [expr], result := st.result ++ [['%', 's']] }
@@ -124,7 +129,7 @@ def adaptCold (style : Style) (toks : List Tok) : Adapted :=
 abbrev Key := List Tok × Style
 abbrev ACache := List (Key × Adapted)
 
-/-- the text the pre-fix code stored under: the `%`-doubled statement -/
+/-- the text the code before de506b3 stored under: the statement after a whole-statement `replace('%', '%%')` -/
 def preTok (style : Style) : Tok → Tok
   | .text t => .text (pre style t)
   | .dollar => .dollar
@@ -162,37 +167,51 @@ inductive Out (V : Type) where
   | val (v : V)
   deriving Repr
 
-/-- `sql % args` for a tuple: `%%` ↦ `%`, `%s` ↦ the next argument; anything else after `%` is an error -/
+/-- `sql % args` for a tuple: `%%` ↦ `%`, `%s` ↦ the next argument; anything else after `%` is an error, and so are
+    left-over arguments ("not all arguments converted") -/
 def expandFormat {V : Type} : List Char → List V → Option (List (Out V))
-  | [], [] => some []
-  | [], _ :: _ => none                               -- "not all arguments converted"
-  | '%' :: '%' :: r, vs => (expandFormat r vs).map (Out.ch '%' :: ·)
-  | '%' :: 's' :: r, v :: vs => (expandFormat r vs).map (Out.val v :: ·)
-  | '%' :: _, _ => none
-  | c :: r, vs => (expandFormat r vs).map (Out.ch c :: ·)
+  | [], vs => if vs.isEmpty then some [] else none
+  | [c], vs => if c = '%' then none else if vs.isEmpty then some [Out.ch c] else none
+  | c :: c2 :: r, vs =>
+    if c = '%' then
+      if c2 = '%' then (expandFormat r vs).map (Out.ch '%' :: ·)
+      else if c2 = 's' then
+        match vs with
+        | v :: vs' => (expandFormat r vs').map (Out.val v :: ·)
+        | [] => none
+      else none
+    else (expandFormat (c2 :: r) vs).map (Out.ch c :: ·)
 
 /-- read decimal digits -/
 def parseNat (cs : List Char) : Nat := cs.foldl (fun acc c => acc * 10 + (c.toNat - 48)) 0
 
-/-- the text up to the first `)` and the rest after it -/
-def splitParen : List Char → Option (List Char × List Char)
-  | [] => none
-  | c :: r => if c = ')' then some ([], r) else (splitParen r).map (fun p => (c :: p.1, p.2))
+/-- scanner states of `sql % dict` -/
+inductive PState where
+  | normal
+  | pct                          -- just read `%`
+  | key (acc : List Char)        -- inside `%( … `
+  | close (key : List Char)      -- just read the `)`
 
-/-- `sql % args` for a dict: `%%` ↦ `%`, `%(pN)s` ↦ `args['pN']` -/
-def expandPyformat {V : Type} (lookup : Nat → Option V) : Nat → List Char → Option (List (Out V))
-  | _, [] => some []
-  | 0, _ => none
-  | fuel + 1, '%' :: '%' :: r => (expandPyformat lookup fuel r).map (Out.ch '%' :: ·)
-  | fuel + 1, '%' :: '(' :: r =>
-    match splitParen r with
-    | some ('p' :: ds, 's' :: r') =>
-      match lookup (parseNat ds) with
-      | some v => (expandPyformat lookup fuel r').map (Out.val v :: ·)
-      | none => none
-    | _ => none
-  | _ + 1, '%' :: _ => none
-  | fuel + 1, c :: r => (expandPyformat lookup fuel r).map (Out.ch c :: ·)
+/-- `sql % args` for a dict: `%%` ↦ `%`, `%(pN)s` ↦ `args['pN']`; anything else after `%` is an error -/
+def expandPyformat {V : Type} (lookup : Nat → Option V) : PState → List Char → Option (List (Out V))
+  | .normal, [] => some []
+  | _, [] => none
+  | .normal, c :: r => if c = '%' then expandPyformat lookup .pct r else (expandPyformat lookup .normal r).map (Out.ch c :: ·)
+  | .pct, c :: r =>
+    if c = '%' then (expandPyformat lookup .normal r).map (Out.ch '%' :: ·)
+    else if c = '(' then expandPyformat lookup (.key []) r else none
+  | .key acc, c :: r => if c = ')' then expandPyformat lookup (.close acc) r else expandPyformat lookup (.key (acc ++ [c])) r
+  | .close key, c :: r =>
+    if c = 's' then
+      match key with
+      | k0 :: ds =>
+        if k0 = 'p' then
+          match lookup (parseNat ds) with
+          | some v => (expandPyformat lookup .normal r).map (Out.val v :: ·)
+          | none => none
+        else none
+      | [] => none
+    else none
 
 /-! ### `parse_raw_sql` (fragments passed to `raw_sql()`) -/
 
